@@ -6,7 +6,7 @@
    arithmetic).  The property statements are evaluated on the implementation's own outputs with an
    exact rational positive-definiteness test (tags 41..47). *)
 From Coq Require Import QArith Qabs List Bool PArith Arith ZArith.
-From PV Require Import Base.PyData Base.Expr C11.Model C11.NumModel.
+From PV Require Import Base.PyData Base.Expr C11.Model C11.NumModel C11.Ldl.
 Import ListNotations.
 Local Open Scope nat_scope.
 
@@ -63,26 +63,8 @@ Fixpoint qlookup (t : list (Q * Q)) (x : Q) : option Q :=
   | (k, v) :: tl => if Qeq_bool k x then Some v else qlookup tl x
   end.
 
-(* ---- exact positive definiteness over Q: symmetric elimination, all pivots > 0 ------------------ *)
-Definition schur (M : qmatrix) : option qmatrix :=
-  match M with
-  | (p :: r0) :: rows =>
-      if Qle_bool p 0 then None
-      else Some (map (fun row => match row with
-                                 | [] => []
-                                 | c :: rest => map (fun xy => Qred (fst xy - c * snd xy / p)) (combine rest r0)
-                                 end) rows)
-  | _ => None
-  end.
-Fixpoint pd_fuel (fuel : nat) (M : qmatrix) : bool :=
-  match fuel with
-  | O => false
-  | S f => match M with
-           | [] => true
-           | _ => match schur M with Some M' => pd_fuel f M' | None => false end
-           end
-  end.
-Definition pd_Q (M : qmatrix) : bool := pd_fuel (S (length M)) M.
+(* ---- exact positive semidefiniteness over Q: the VERIFIED checker Ldl.ldl_check
+   (ldl_psd_sound: ldl_check A = true -> forall x, 0 <= x^T A x) ----------------------------------- *)
 Definition maxabs (M : qmatrix) : Q :=
   fold_left (fun a row => fold_left (fun a x => if Qle_bool a (Qabs x) then Qabs x else a) row a) M 0%Q.
 Definition shift (M : qmatrix) (t : Q) : qmatrix :=
@@ -93,8 +75,8 @@ Definition symmetrize (M : qmatrix) : qmatrix :=
   map (fun i => map (fun j => Qred ((qget M i j + qget M j i) / 2)) (seq 0 (length M))) (seq 0 (length M)).
 Definition tolQ (M : qmatrix) : Q := (1 # 100000000) * (1 + maxabs M).
 (* PSD within tolerance / clearly not PSD *)
-Definition psd_tol (M : qmatrix) : bool := pd_Q (shift (symmetrize M) (tolQ M)).
-Definition clearly_pd (M : qmatrix) : bool := pd_Q (shift (symmetrize M) (- tolQ M)).
+Definition psd_tol (M : qmatrix) : bool := ldl_check (shift (symmetrize M) (tolQ M)).
+Definition clearly_pd (M : qmatrix) : bool := ldl_check (shift (symmetrize M) (- tolQ M)).
 Definition is_symmetric (M : qmatrix) : bool :=
   forallb (fun i => forallb (fun j => qclose (qget M i j) (qget M j i)) (seq 0 (length M))) (seq 0 (length M)).
 
@@ -213,3 +195,36 @@ Section WithCase.
                 tag (psd_tol B) 46 ++ tag (is_symmetric B) 47 ++
                 (if q_is_psd A then tag (mat_eqb A B) 42 else [])) (n_rep c).
 End WithCase.
+
+(* ---- precision-matrix conversions of modeling/math.py (tags 61..67) ------------------------------------ *)
+Record pcase := mkPCase {
+  pc_S : qmatrix;                          (* a covariance matrix *)
+  pc_inv : list (qmatrix * qmatrix);       (* np.linalg.inv as computed (looked up within 1e-9) *)
+  pc_sqrt : list (Q * Q);
+  pc_se_cov : list Q; pc_corr_cov : qmatrix; pc_prec_cov : qmatrix;          (* from S *)
+  pc_cov_prec : qmatrix; pc_se_prec : list Q; pc_corr_prec : qmatrix;       (* from P = prec_from_cov(S) *)
+  pc_cov_corrse : qmatrix; pc_prec_corrse : qmatrix                          (* from (corr_from_cov S, se_from_cov S) *)
+}.
+Fixpoint clookup (t : list (qmatrix * qmatrix)) (M : qmatrix) : qmatrix :=
+  match t with [] => M | (K, v) :: tl => if mat_close K M then v else clookup tl M end.
+Definition qclose6 (a b : Q) : bool := Qle_bool (Qabs (a - b)) ((1 # 1000000) * (1 + Qabs b)).
+Definition mat_close6 (A B : qmatrix) : bool := all2 (all2 qclose6) A B.
+
+Definition pverdict (c : pcase) : list nat :=
+  let sq := fun x => match qlookup (pc_sqrt c) x with Some v => v | None => 0%Q end in
+  let is0 := fun x => Qeq_bool x 0 in
+  let inv := clookup (pc_inv c) in
+  let S := pc_S c in
+  let P := pc_prec_cov c in
+  tag (all2 qclose (se_from_cov Q 0%Q sq S) (pc_se_cov c)) 61 ++
+  tag (mat_close (cov2corr Q 0%Q Qmult Qdiv sq is0 S) (pc_corr_cov c)) 61 ++
+  tag (mat_close (prec_from_cov Q inv S) (pc_prec_cov c)) 62 ++
+  tag (mat_close (cov_from_prec Q inv P) (pc_cov_prec c)) 62 ++
+  tag (all2 qclose6 (se_from_prec Q 0%Q sq inv P) (pc_se_prec c)) 63 ++
+  tag (mat_close6 (corr_from_prec Q 0%Q Qmult Qdiv sq is0 inv P) (pc_corr_prec c)) 63 ++
+  tag (mat_close (cov_from_corrse Q 0%Q Qplus Qmult (pc_corr_cov c) (pc_se_cov c)) (pc_cov_corrse c)) 64 ++
+  tag (mat_close6 (prec_from_corrse Q 0%Q Qplus Qmult inv (pc_corr_cov c) (pc_se_cov c)) (pc_prec_corrse c)) 64 ++
+  (* the property: the conversions are mutually inverse, on the implementation's own outputs *)
+  tag (mat_close6 (pc_cov_corrse c) S) 65 ++
+  tag (mat_close6 (pc_prec_corrse c) (pc_prec_cov c)) 66 ++
+  tag (mat_close6 (pc_cov_prec c) S) 67.
